@@ -798,6 +798,14 @@ def P15(ctx, facts):
         if not holds:
             continue
         n += 1
+        if path not in KNOWN_HOLDERS:
+            short = path.split("::")[-1]
+            stored = [p2 for p2, a2 in facts.adts.items() if p2 != path and any((short + "<") in fl["ty"] or fl["ty"].endswith("::" + short) or fl["ty"] == short
+                                                                                for v2 in a2["variants"] for fl in v2["fields"])]
+            impls = [im for im in facts.impls if (im.get("self_adt") or "").endswith(path) and (im.get("trait") or "").split("::")[-1] in ("Future", "Drop", "Stream")]
+            if not stored and not impls:
+                ctx.ok("holder|%s" % path, "%s carries a connection only as a local value (it is no field of any type, no future, has no Drop): ownership passes through it within one call" % path, adt.get("span"))
+                continue
         ctx.check(path in KNOWN_HOLDERS, "holder|%s" % path, "connection holder %s has a checked release path: %s" % (path, KNOWN_HOLDERS.get(path)),
                   "new type %s can hold a pooled connection but has no release obligation" % path, adt.get("span"))
     ctx.floor("holders", n, 6, "types in client::pool that can hold a connection")
